@@ -276,6 +276,29 @@ def oracle(prop, run):
                 sinks_done = bool(g["sinks"]) and all(tasks[x]["state"] == "COMPLETED" for x in g["sinks"])
                 if sinks_done != (g["name"] in fin_rows):
                     yield ("C06 graph-finished-row-iff-all-sinks-completed-broken", {"graph": g["name"], "sinks_completed": sinks_done})
+    if prop == "C07" and flags.get("resolve_conditionals_at_submission"):
+        # resolved at submission: every conditional that can run has exactly one child with probability 1, the
+        # others 0, from the moment the task graph exists; and that child is the branch that runs
+        sub = {}
+        for gi, g in enumerate(case["graphs"]):
+            for ti, t in enumerate(g["graph"]["tasks"]):
+                sub[f"g{gi}.t{ti}"] = t["prob"]
+        for lab, t in tasks.items():
+            if not t["conditional"] or not t["children"] or lab not in sub or sub[lab] <= 0:
+                continue
+            kp = [sub.get(c) for c in t["children"]]
+            if None in kp:
+                continue
+            on_taken_path = all(sub.get(q, 0) > 0 or tasks[q]["terminal"] for q in t["parents"]) or not t["parents"]
+            if on_taken_path and sorted(kp) != [0] * (len(kp) - 1) + [1000]:
+                yield ("C07 conditional-not-resolved-to-exactly-one-branch-at-submission", {"conditional": lab, "child_probabilities": kp})
+            elif ended_idle and t["state"] == "COMPLETED" and 1000 in kp:
+                chosen = t["children"][kp.index(1000)]
+                released = sorted({e["t"] for e in mon if e["ev"] == "release" and e["t"] in t["children"]})
+                fin_at = next((i for i, e in enumerate(mon) if e["ev"] == "finish" and e["t"] == lab), None)
+                interfered = fin_at is None or any(e["ev"] == "transition" and e["post"] == "CANCELLED" and e["t"] in t["children"] for e in mon[:fin_at])
+                if not interfered and released != [chosen]:
+                    yield ("C07 branch-that-ran-is-not-the-one-resolved-at-submission", {"conditional": lab, "resolved": chosen, "released": released})
     if prop == "C07" and ended_idle:
         for lab, t in tasks.items():
             if t["conditional"] and t["state"] == "COMPLETED" and t["children"]:
@@ -292,7 +315,7 @@ def oracle(prop, run):
                 if len(live) != 1:
                     yield ("C07 not-exactly-one-branch-taken", {"conditional": lab, "live": live})
                 elif tasks[live[0]]["job_probability"] <= 0:
-                    yield ("C07 zero-probability-branch-taken", {"conditional": lab, "child": live[0]})
+                    yield (f"C07 zero-probability-branch-taken resolved-at-submission={bool(flags.get('resolve_conditionals_at_submission'))}", {"conditional": lab, "child": live[0]})
         for t_, evs in starts.items():
             if tasks.get(t_, {}).get("state") == "CANCELLED":
                 yield ("C07 cancelled-task-was-started", {"task": t_})
